@@ -155,11 +155,9 @@ def translate(repo):
         b = lambda x: "true" if x else "false"
         out.append(f"  | {ctor} => ({b(g['_states'])}, {b(g['_actions'])}, {b(g['_disturbances'])})")
     out += ["  end.", ""]
-    try:
-        from translator import forwarding
-        out += forwarding.translate(repo)
-    except ImportError:
-        pass
+    from translator import forwarding, effects
+    out += forwarding.translate(repo)
+    out += effects.translate(repo)
     return "\n".join(out) + "\n"
 
 
